@@ -76,18 +76,19 @@ class Ptr:
     """Pointer to the sub-value at `path` of `cell`.  If idx is not None the pointer designates the
     element run starting at element `idx` of the array found at `path` (slice / element pointer);
     meta is the slice length (python int) for fat pointers; ety is the element type of that array."""
-    __slots__ = ("cell", "path", "idx", "meta", "ety")
+    __slots__ = ("cell", "path", "idx", "meta", "ety", "vty")
 
-    def __init__(self, cell, path=(), idx=None, meta=None, ety=None):
+    def __init__(self, cell, path=(), idx=None, meta=None, ety=None, vty=None):
         self.cell = cell
         self.path = tuple(path)
         self.idx = idx
         self.meta = meta
         self.ety = ety
+        self.vty = vty      # element type of a slice VIEW over the run (e.g. &[u64] over bytes), else None
 
     def __eq__(self, o):
         return (isinstance(o, Ptr) and self.cell is o.cell and self.path == o.path and self.idx == o.idx
-                and self.meta == o.meta)
+                and self.meta == o.meta and self.vty == o.vty)
 
     def __hash__(self):
         return hash((id(self.cell), self.path, self.idx, self.meta))
@@ -244,6 +245,14 @@ class Interp:
         self.trace = False
 
     # ------------------------------------------------------------------ memory helpers
+    def cell_address(self, cell):
+        """Assumed address (mod 64) of a root allocation: the alignment selector for cells the check
+        registered in self.align_cases, a different but fixed residue for everything else."""
+        a = getattr(self, "align_case", 0)
+        if any(cell.name.startswith(n) for n in getattr(self, "align_names", ("data", "input", "out", "block", "m"))):
+            return a % 64
+        return (a * 7 + 3) % 64
+
     def new_cell(self, v, name="heap"):
         c = Cell(v, name)
         self.heap.append(c)
@@ -414,7 +423,7 @@ class Interp:
                 pk = ty.kind(pt)
                 if v.idx is not None:
                     if pk in ("slice", "str"):
-                        pl = Place(v.cell, v.path, pt, sl=(v.idx, v.meta, v.ety))
+                        pl = Place(v.cell, v.path, pt, sl=(v.idx, v.meta, v.ety, v.vty))
                     else:
                         if v.ety == pt or (v.ety is not None and ty.get(v.ety) == ty.get(pt)):
                             at = None
@@ -441,10 +450,13 @@ class Interp:
                     if e["from_end"]:
                         raise Undecided("constindex from_end")
                 if pl.sl is not None:
-                    start, ln, ety = pl.sl
+                    start, ln, ety, vty = pl.sl
                     if ln is not None and n >= ln:
                         raise Diverge(("index out of bounds", fr.key))
-                    pl = Place(pl.cell, pl.path + (("i", start + n, None),), ety)
+                    if vty is not None and vty != ety:
+                        pl = Place(pl.cell, pl.path, vty, cast=(start + n * self.view_stride(ety, vty), ety))
+                    else:
+                        pl = Place(pl.cell, pl.path + (("i", start + n, None),), ety)
                 else:
                     et = ty.elem(pl.ty)
                     pl = Place(pl.cell, pl.path + (("i", n, pl.ty),), et)
@@ -500,8 +512,8 @@ class Interp:
 
     def place_to_ptr(self, pl):
         if pl.sl is not None:
-            start, ln, ety = pl.sl
-            return Ptr(pl.cell, pl.path, idx=start, meta=ln, ety=ety)
+            start, ln, ety, vty = pl.sl
+            return Ptr(pl.cell, pl.path, idx=start, meta=ln, ety=ety, vty=vty)
         if pl.cast is not None:
             start, ety = pl.cast
             return Ptr(pl.cell, pl.path, idx=start, meta=None, ety=ety)
@@ -708,6 +720,9 @@ class Interp:
             return bv.sext(v, bt) if sf else bv.zext(v, bt)
         if kind == "transmute":
             if isinstance(v, Ptr):
+                if ty.kind(tt) == "int":
+                    # address of a pointer (debug-build pointer checks): an opaque symbolic word
+                    return bv.ufn("addr", (bv.const(id(v.cell) & 0xffffffff, 32), bv.const(v.idx or 0, 32)), ty.size_bits(tt))
                 return v
             bits = self.to_bits(v, tf)
             if ty.size_bits(tt) != len(bits):
@@ -734,7 +749,13 @@ class Interp:
                     raise Undecided("unsize of %r" % (v,))
                 pf = ty.get(tf)["pointee"]
                 if ty.kind(pf) == "array":
-                    return Ptr(v.cell, v.path, idx=0, meta=ty.array_len(pf), ety=ty.elem(pf))
+                    path = v.path
+                    if v.idx is not None:
+                        # pointer to an element (itself an array) of an outer array
+                        if v.ety is not None and v.ety != pf and ty.get(v.ety) != ty.get(pf):
+                            raise Undecided("unsize of a cast element pointer")
+                        path = path + (("i", v.idx, None),)
+                    return Ptr(v.cell, path, idx=0, meta=ty.array_len(pf), ety=ty.elem(pf))
                 raise Undecided("unsize coercion from %s" % pf)
             if what.startswith("ReifyFnPointer") or what.startswith("ClosureFnPointer"):
                 return v
@@ -969,6 +990,8 @@ class Interp:
                     bb = nxt
                 else:
                     return self.fork(fr, t, d)
+            elif k == "assert" and (t["msg"].startswith("misaligned") or t["msg"].startswith("null_deref")):
+                bb = t["target"]      # debug-only UB checks on raw pointers; alignment is C16's structural rule
             elif k == "assert":
                 c = self.eval_operand(fr, t["cond"])
                 cv = bv.const_value(c)
@@ -1132,6 +1155,14 @@ class Interp:
         self.write_place(pl, v)
 
     # ------------------------------------------------------------------ slices as python lists
+    def view_stride(self, ety, vty):
+        if vty is None or vty == ety:
+            return 1
+        es, vs = self.ty.size_bits(ety), self.ty.size_bits(vty)
+        if es == 0 or vs % es:
+            raise Undecided("slice view granularity %s over %s" % (vty, ety))
+        return vs // es
+
     def slice_elems(self, p):
         """Elements designated by a fat slice pointer (list of values)."""
         if not isinstance(p, Ptr) or p.idx is None or p.meta is None:
@@ -1142,19 +1173,38 @@ class Interp:
             arr = Agg(self.from_bits(arr[i * es:(i + 1) * es], p.ety) for i in range(len(arr) // es))
         if not isinstance(arr, Agg):
             raise Undecided("slice over %r" % (arr,))
-        if p.idx + p.meta > len(arr.f):
+        k = self.view_stride(p.ety, p.vty)
+        if p.idx + p.meta * k > len(arr.f):
             raise Diverge(("slice exceeds its allocation", "memory"))
-        return list(arr.f[p.idx:p.idx + p.meta])
+        if k == 1:
+            return list(arr.f[p.idx:p.idx + p.meta])
+        out = []
+        for i in range(p.meta):
+            bits = bv.concat(self.to_bits(x, p.ety) for x in arr.f[p.idx + i * k:p.idx + (i + 1) * k])
+            out.append(self.from_bits(bits, p.vty))
+        return out
 
     def slice_store(self, p, values):
         arr = self.read_path(p.cell.v, p.path)
         if not isinstance(arr, Agg):
             raise Undecided("slice_store over %r" % (arr,))
         f = list(arr.f)
+        k = self.view_stride(p.ety, p.vty)
+        if k != 1:
+            es = self.ty.size_bits(p.ety)
+            flat = []
+            for v in values:
+                bits = self.to_bits(v, p.vty)
+                flat.extend(self.from_bits(bits[j * es:(j + 1) * es], p.ety) for j in range(k))
+            values = flat
         if p.idx + len(values) > len(f):
             raise Diverge(("store exceeds allocation", "memory"))
         f[p.idx:p.idx + len(values)] = values
         p.cell.v = self.write_path(p.cell.v, p.path, Agg(f))
 
     def subslice(self, p, start, ln):
-        return Ptr(p.cell, p.path, idx=p.idx + start, meta=ln, ety=p.ety)
+        return Ptr(p.cell, p.path, idx=p.idx + start * self.view_stride(p.ety, p.vty), meta=ln, ety=p.ety, vty=p.vty)
+
+    def elem_ptr(self, p, i):
+        """Thin pointer to element i of the slice p (view-aware)."""
+        return Ptr(p.cell, p.path, idx=p.idx + i * self.view_stride(p.ety, p.vty), meta=None, ety=p.ety)
